@@ -27,6 +27,21 @@ type Parser struct {
 	peekToken    *Token // Next token (lookahead)
 	resolver     ReferenceResolver
 	tokenErr     error // Lexer error that ended the token stream, if any
+	depth        int   // Arrays and dictionaries currently open (see maxNestingDepth)
+}
+
+// maxNestingDepth bounds how deeply arrays and dictionaries may nest. They are parsed
+// recursively, so without a limit a few megabytes of '[' exhaust the goroutine stack,
+// which aborts the process instead of returning an error.
+const maxNestingDepth = 1000
+
+// enterNested accounts for one more open array or dictionary.
+func (p *Parser) enterNested() error {
+	if p.depth >= maxNestingDepth {
+		return fmt.Errorf("arrays and dictionaries nested deeper than %d", maxNestingDepth)
+	}
+	p.depth++
+	return nil
 }
 
 // SetReferenceResolver sets the reference resolver for the parser.
@@ -166,10 +181,20 @@ func (p *Parser) ParseObject() (Object, error) {
 		return Name(val), nil
 
 	case TokenArrayStart:
-		return p.parseArray()
+		if err := p.enterNested(); err != nil {
+			return nil, err
+		}
+		obj, err := p.parseArray()
+		p.depth--
+		return obj, err
 
 	case TokenDictStart:
-		return p.parseDict()
+		if err := p.enterNested(); err != nil {
+			return nil, err
+		}
+		obj, err := p.parseDict()
+		p.depth--
+		return obj, err
 
 	default:
 		return nil, fmt.Errorf("unexpected token type: %v at position %d", p.currentToken.Type, p.currentToken.Pos)
